@@ -177,7 +177,7 @@ static void classify_death(const std::string &prop, int status, const std::strin
     }
     if (!frame.empty()) where = frame;
     size_t rt = errtxt.find("runtime error: ");
-    if (rt != std::string::npos && kind == "undefined-behavior") { size_t e = errtxt.find('\n', rt); std::string m = errtxt.substr(rt + 15, e - rt - 15); for (char &ch : m) if (ch >= '0' && ch <= '9') ch = '#'; kind = "ub:" + m.substr(0, 40); }
+    if (rt != std::string::npos && (kind == "undefined-behavior" || kind == "crash")) { size_t e = errtxt.find('\n', rt); std::string m = errtxt.substr(rt + 15, e - rt - 15); for (char &ch : m) if (ch >= '0' && ch <= '9') ch = '#'; kind = "ub:" + m.substr(0, 40); }
     sig = kind + "@" + where;
 }
 static ChildOutcome run_in_child(const RunSpec &spec, int alarm_s, bool want_trace) {
